@@ -17,6 +17,7 @@ pub async fn run_other(kind: &str, case: &Value) -> Value {
         "framing" => run_framing(case).await,
         "drop-partial" => run_drop_partial(case).await,
         "creds" => run_creds(case).await,
+        "demux" => run_demux(case).await,
         _ => json!({"verdict": "harness-error", "why": format!("unknown case kind {kind}")}),
     }
 }
@@ -369,4 +370,208 @@ async fn run_creds(case: &Value) -> Value {
         "hits": hits.iter().take(6).collect::<Vec<_>>(), "hit_count": hits.len(), "log_bytes": text.len(), "log_lines": text.iter().filter(|b| **b == b'\n').count(),
         "client": clip(&client, 300), "secrets_checked": secrets_list.iter().map(|(n, s)| format!("{n} ({} bytes)", s.len())).collect::<Vec<_>>(),
     })
+}
+
+
+/// C05 over the real transports: `rounds` batches of `n` pipelined requests on one session; the
+/// server answers each batch in a scripted permutation, the replies cut into scripted units
+/// (several replies or parts of replies per TLS record / channel-data packet / pipe write). The
+/// reply futures are awaited in issue order, in reverse order, or as concurrently spawned tasks.
+async fn run_demux(case: &Value) -> Value {
+    let tr = Tr::parse(case["tr"].as_str().unwrap_or("tls")).unwrap();
+    let n = case["n"].as_u64().unwrap_or(3) as usize;
+    let rounds = case["rounds"].as_u64().unwrap_or(1) as usize;
+    let mode = case["await"].as_str().unwrap_or("in-order").to_string();
+    let seed = case["seed"].as_u64().unwrap_or(0);
+    let cid = case["id"].as_u64().unwrap_or(0);
+    let hello = hello_bytes(&["urn:ietf:params:netconf:base:1.0"]);
+    let mut lis = match Listener::bind(tr).await {
+        Ok(l) => l,
+        Err(e) => return json!({"verdict": "harness-error", "why": format!("bind: {e}")}),
+    };
+    let ep = lis.endpoint.clone();
+    let pw = lis.ssh_password.clone();
+    let mode2 = mode.clone();
+    let cl = tokio::spawn(async move {
+        async fn go<T: netconf::transport::Transport + 'static>(s: Result<Session<T>, netconf::Error>, n: usize, rounds: usize, mode: &str) -> Value {
+            let mut s = match s {
+                Ok(s) => s,
+                Err(e) => return json!({"establish": format!("{e:?}")}),
+            };
+            type BF = std::pin::Pin<Box<dyn std::future::Future<Output = Result<netconf::message::rpc::operation::Opaque, netconf::Error>> + Send>>;
+            let mut all: Vec<Vec<String>> = Vec::new();
+            for _ in 0..rounds {
+                let mut futs: Vec<BF> = Vec::new();
+                for _ in 0..n {
+                    match s.rpc::<Get, _>(|b| b.finish()).await {
+                        Ok(f) => futs.push(Box::pin(f)),
+                        Err(e) => return json!({"establish": format!("rpc failed: {e:?}")}),
+                    }
+                }
+                tracing::info!(target: "vh::client", "requests-sent");
+                let to = Duration::from_secs(4);
+                let show = |r: Result<Result<netconf::message::rpc::operation::Opaque, netconf::Error>, tokio::time::error::Elapsed>| match r {
+                    Ok(Ok(v)) => format!("ok:{v}"),
+                    Ok(Err(e)) => format!("err:{e:?}"),
+                    Err(_) => "timeout".to_string(),
+                };
+                let mut res: Vec<String> = vec![String::new(); n];
+                match mode {
+                    "spawned" => {
+                        let hs: Vec<_> = futs.into_iter().map(|f| tokio::spawn(async move { tokio::time::timeout(to, f).await })).collect();
+                        for (k, h) in hs.into_iter().enumerate() {
+                            res[k] = match h.await {
+                                Ok(r) => show(r),
+                                Err(e) => format!("panic:{e}"),
+                            };
+                        }
+                    }
+                    "reverse" => {
+                        for (k, f) in futs.into_iter().enumerate().rev() {
+                            res[k] = show(tokio::time::timeout(to, f).await);
+                        }
+                    }
+                    _ => {
+                        for (k, f) in futs.into_iter().enumerate() {
+                            res[k] = show(tokio::time::timeout(to, f).await);
+                        }
+                    }
+                }
+                tracing::info!(target: "vh::client", "round-done");
+                all.push(res);
+            }
+            json!({"establish": "ok", "rounds": all})
+        }
+        let to = Duration::from_secs(6);
+        match (tr, ep) {
+            (Tr::Tls, Endpoint::Tcp(p)) => match tokio::time::timeout(to, connect_tls(p)).await {
+                Ok(s) => go(s, n, rounds, &mode2).await,
+                Err(_) => json!({"establish": "TIMEOUT"}),
+            },
+            (Tr::Ssh, Endpoint::Tcp(p)) => match tokio::time::timeout(to, Session::ssh(("127.0.0.1", p), "vh".to_string(), pw.parse().unwrap())).await {
+                Ok(s) => go(s, n, rounds, &mode2).await,
+                Err(_) => json!({"establish": "TIMEOUT"}),
+            },
+            (Tr::Cli, Endpoint::Unix(path)) => {
+                let exe = std::env::current_exe().unwrap().to_string_lossy().into_owned();
+                let p = path.to_string_lossy().into_owned();
+                match tokio::time::timeout(to, Session::verif_junos_local(&exe, &["fake-cli", &p])).await {
+                    Ok(s) => go(s, n, rounds, &mode2).await,
+                    Err(_) => json!({"establish": "TIMEOUT"}),
+                }
+            }
+            _ => json!({"establish": "harness"}),
+        }
+    });
+    let mut conn = match tokio::time::timeout(Duration::from_secs(8), lis.accept()).await {
+        Ok(Ok(c)) => c,
+        other => return json!({"verdict": "harness-error", "why": format!("accept: {:?}", other.map(|r| r.map(|_| ())))}),
+    };
+    let _ = conn.send_unit(&hello).await;
+    let mut r = crate::util::Prng::derive(seed, "demux", cid);
+    let mut from_client = Vec::new();
+    let mut seen_ids: Vec<String> = Vec::new();
+    let mut expected: Vec<Vec<String>> = Vec::new();
+    let mut script: Vec<Value> = Vec::new();
+    let mut setup_problem: Option<String> = None;
+    for round in 0..rounds {
+        // client hello + all requests so far
+        if !conn.read_messages(&mut from_client, 1 + (round + 1) * n, Duration::from_secs(5)).await {
+            setup_problem = Some(format!("round {round}: the client's requests did not arrive"));
+            break;
+        }
+        let msgs: Vec<&[u8]> = from_client.split_inclusive_marker();
+        let ids: Vec<String> = msgs.iter().skip(1 + round * n).take(n).filter_map(|m| crate::memwire::request_message_id_lenient(m)).collect();
+        if ids.len() != n {
+            setup_problem = Some(format!("round {round}: {} message-ids found in {} requests", ids.len(), n));
+            break;
+        }
+        let tags: Vec<String> = (0..n).map(|k| format!("tag-{cid}-{round}-{k}")).collect();
+        let mut order: Vec<usize> = (0..n).collect();
+        r.shuffle(&mut order);
+        let mut stream = Vec::new();
+        for &k in &order {
+            let pad = *r.pick(&[0usize, 0, 16, 300, 5000]);
+            let idn: usize = ids[k].parse().unwrap_or(0);
+            stream.extend(reply_bytes(idn, &tags[k], pad, false));
+        }
+        let mut cuts: Vec<usize> = Vec::new();
+        match r.below(4) {
+            0 => {}                                                        // everything in one unit
+            1 => cuts = crate::realwire::delimiter_ends(&stream),          // one reply per unit
+            _ => {
+                for _ in 0..r.range(1, 5) {
+                    cuts.push(r.below(stream.len()));
+                }
+            }
+        }
+        cuts.retain(|c| *c > 0 && *c < stream.len());
+        cuts.sort_unstable();
+        cuts.dedup();
+        let mut prev = 0;
+        for c in cuts.iter().chain(std::iter::once(&stream.len())) {
+            let _ = conn.send_unit(&stream[prev..*c]).await;
+            prev = *c;
+            if r.chance(1, 2) {
+                tokio::time::sleep(Duration::from_millis(r.below(4) as u64)).await;
+            }
+        }
+        script.push(json!({"round": round, "request_ids": ids, "reply_order": order, "cuts": cuts, "stream_len": stream.len()}));
+        seen_ids.extend(ids);
+        expected.push(tags);
+        // the next batch is issued only after this one has been resolved
+        let t0 = std::time::Instant::now();
+        while trace::snapshot().iter().filter(|e| e.target == "vh::client" && e.msg.starts_with("round-done")).count() <= round && t0.elapsed() < Duration::from_secs(10) {
+            tokio::time::sleep(Duration::from_millis(2)).await;
+        }
+    }
+    let out = tokio::time::timeout(Duration::from_secs(15), cl).await.ok().and_then(Result::ok).unwrap_or(json!({"establish": "client task lost"}));
+    conn.close(CloseManner::Clean).await;
+    if out["establish"] != "ok" {
+        return json!({"verdict": "not-exercised", "why": format!("setup: {out} {setup_problem:?}")});
+    }
+    let mut symptoms: Vec<String> = Vec::new();
+    let mut uniq = seen_ids.clone();
+    uniq.sort();
+    uniq.dedup();
+    if uniq.len() != seen_ids.len() {
+        symptoms.push("message-id-reused".into());
+    }
+    let mut checked = 0;
+    for (round, tags) in expected.iter().enumerate() {
+        for (k, tag) in tags.iter().enumerate() {
+            checked += 1;
+            let got = out["rounds"][round][k].as_str().unwrap_or("missing");
+            if got.starts_with(&format!("ok:{tag}")) {
+            } else if got.starts_with("ok:") {
+                symptoms.push("someone-elses-reply".into());
+            } else if got == "timeout" {
+                symptoms.push("left-waiting".into());
+            } else {
+                symptoms.push("error-instead-of-reply".into());
+            }
+        }
+    }
+    symptoms.sort();
+    symptoms.dedup();
+    if let (Some(p), true) = (&setup_problem, symptoms.is_empty()) {
+        return json!({"verdict": "not-exercised", "why": p});
+    }
+    json!({"verdict": if symptoms.is_empty() { "held" } else { "violated" }, "symptoms": symptoms, "client": out, "script": script, "replies_checked": checked})
+}
+
+trait SplitMarker {
+    fn split_inclusive_marker(&self) -> Vec<&[u8]>;
+}
+
+impl SplitMarker for Vec<u8> {
+    fn split_inclusive_marker(&self) -> Vec<&[u8]> {
+        let mut v = Vec::new();
+        let mut prev = 0;
+        for e in crate::realwire::delimiter_ends(self) {
+            v.push(&self[prev..e]);
+            prev = e;
+        }
+        v
+    }
 }
